@@ -21,29 +21,34 @@ bool prop_run(Tape &t, Report &r) {
   struct Guard { OggVorbis_File *v; ~Guard() { ov_clear(v); } } guard{&vf};
   if (ov_streams(&vf) != (long)k) return r.fail("ov_streams=%ld, file has %zu links [%s]", ov_streams(&vf), k, desc.c_str());
   if (!ov_seekable(&vf)) return r.fail("ov_seekable=0 [%s]", desc.c_str());
-  int64_t sum = 0, rawsum = 0; double tsum = 0;
-  for (size_t i = 0; i < k; i++) {
-    vorbis_info *vi = ov_info(&vf, (int)i); vorbis_comment *vc = ov_comment(&vf, (int)i);
-    if (!vi || !vc) return r.fail("ov_info/ov_comment(%zu) NULL [%s]", i, desc.c_str());
-    if (vi->channels != c.links[i].channels || vi->rate != c.links[i].rate) return r.fail("link %zu: info %d ch %ld Hz, stream has %d ch %ld Hz [%s]", i, vi->channels, vi->rate, c.links[i].channels, c.links[i].rate, desc.c_str());
-    if ((size_t)vc->comments != meta[i].comments.size()) return r.fail("link %zu: %d comments, wrote %zu [%s]", i, vc->comments, meta[i].comments.size(), desc.c_str());
-    for (int j = 0; j < vc->comments; j++) if (meta[i].comments[j] != std::string(vc->user_comments[j], vc->comment_lengths[j])) return r.fail("link %zu comment %d differs [%s]", i, j, desc.c_str());
-    if (ov_serialnumber(&vf, (int)i) != (long)c.links[i].serial) return r.fail("link %zu: serial %ld, stream %d [%s]", i, ov_serialnumber(&vf, (int)i), c.links[i].serial, desc.c_str());
-    int64_t pt = ov_pcm_total(&vf, (int)i);
-    if (pt != g.len[i]) return r.fail("ov_pcm_total(%zu)=%lld, link has %lld samples [%s]", i, (long long)pt, (long long)g.len[i], desc.c_str());
-    double tt = ov_time_total(&vf, (int)i), want = (double)g.len[i] / (double)c.links[i].rate;
-    if (tt != want) return r.fail("ov_time_total(%zu)=%.17g want %.17g [%s]", i, tt, want, desc.c_str());
-    // ov_raw_total is not part of the property (the library counts the last link only up to the start of its final page);
-    // only its internal consistency is checked: each link's value lies within the link's byte range and the whole is the sum.
-    int64_t rt = ov_raw_total(&vf, (int)i);
-    if (rt < 0 || rt > c.link_end[i] - c.link_start[i]) return r.fail("ov_raw_total(%zu)=%lld outside [0,%lld] [%s]", i, (long long)rt, (long long)(c.link_end[i] - c.link_start[i]), desc.c_str());
-    rawsum += rt;
-    sum += pt; tsum += tt;
-  }
-  if (ov_pcm_total(&vf, -1) != sum || sum != g.total) return r.fail("ov_pcm_total(-1)=%lld, sum of links %lld [%s]", (long long)ov_pcm_total(&vf, -1), (long long)g.total, desc.c_str());
-  if (ov_raw_total(&vf, -1) != rawsum) return r.fail("ov_raw_total(-1)=%lld, sum over links %lld [%s]", (long long)ov_raw_total(&vf, -1), (long long)rawsum, desc.c_str());
-  if (fabs(ov_time_total(&vf, -1) - tsum) > 1e-9 * (1 + tsum)) return r.fail("ov_time_total(-1)=%.17g, sum %.17g [%s]", ov_time_total(&vf, -1), tsum, desc.c_str());
-  if (ov_pcm_total(&vf, (int)k) != OV_EINVAL || ov_info(&vf, (int)k) != NULL) return r.fail("queries for link index k are not refused [%s]", desc.c_str());
+  // the link table must read the same at any moment of the handle's life (right after open, inside every link, at the end)
+  auto check_table = [&](const char *when) -> bool {
+    int64_t sum = 0, rawsum = 0; double tsum = 0;
+    for (size_t i = 0; i < k; i++) {
+      vorbis_info *vi = ov_info(&vf, (int)i); vorbis_comment *vc = ov_comment(&vf, (int)i);
+      if (!vi || !vc) return r.fail("ov_info/ov_comment(%zu) NULL (%s) [%s]", i, when, desc.c_str());
+      if (vi->channels != c.links[i].channels || vi->rate != c.links[i].rate) return r.fail("link %zu: info %d ch %ld Hz, stream has %d ch %ld Hz (%s) [%s]", i, vi->channels, vi->rate, c.links[i].channels, c.links[i].rate, when, desc.c_str());
+      if ((size_t)vc->comments != meta[i].comments.size()) return r.fail("link %zu: %d comments, wrote %zu (%s) [%s]", i, vc->comments, meta[i].comments.size(), when, desc.c_str());
+      for (int j = 0; j < vc->comments; j++) if (meta[i].comments[j] != std::string(vc->user_comments[j], vc->comment_lengths[j])) return r.fail("link %zu comment %d differs (%s) [%s]", i, j, when, desc.c_str());
+      if (ov_serialnumber(&vf, (int)i) != (long)c.links[i].serial) return r.fail("link %zu: serial %ld, stream %d (%s) [%s]", i, ov_serialnumber(&vf, (int)i), c.links[i].serial, when, desc.c_str());
+      int64_t pt = ov_pcm_total(&vf, (int)i);
+      if (pt != g.len[i]) return r.fail("ov_pcm_total(%zu)=%lld, link has %lld samples (%s) [%s]", i, (long long)pt, (long long)g.len[i], when, desc.c_str());
+      double tt = ov_time_total(&vf, (int)i), want = (double)g.len[i] / (double)c.links[i].rate;
+      if (tt != want) return r.fail("ov_time_total(%zu)=%.17g want %.17g (%s) [%s]", i, tt, want, when, desc.c_str());
+      // ov_raw_total is not part of the property (the library counts the last link only up to the start of its final page);
+      // only its internal consistency is checked: each link's value lies within the link's byte range and the whole is the sum.
+      int64_t rt = ov_raw_total(&vf, (int)i);
+      if (rt < 0 || rt > c.link_end[i] - c.link_start[i]) return r.fail("ov_raw_total(%zu)=%lld outside [0,%lld] (%s) [%s]", i, (long long)rt, (long long)(c.link_end[i] - c.link_start[i]), when, desc.c_str());
+      rawsum += rt;
+      sum += pt; tsum += tt;
+    }
+    if (ov_pcm_total(&vf, -1) != sum || sum != g.total) return r.fail("ov_pcm_total(-1)=%lld, sum of links %lld (%s) [%s]", (long long)ov_pcm_total(&vf, -1), (long long)g.total, when, desc.c_str());
+    if (ov_raw_total(&vf, -1) != rawsum) return r.fail("ov_raw_total(-1)=%lld, sum over links %lld (%s) [%s]", (long long)ov_raw_total(&vf, -1), (long long)rawsum, when, desc.c_str());
+    if (fabs(ov_time_total(&vf, -1) - tsum) > 1e-9 * (1 + tsum)) return r.fail("ov_time_total(-1)=%.17g, sum %.17g (%s) [%s]", ov_time_total(&vf, -1), tsum, when, desc.c_str());
+    if (ov_pcm_total(&vf, (int)k) != OV_EINVAL || ov_info(&vf, (int)k) != NULL) return r.fail("queries for link index k are not refused (%s) [%s]", when, desc.c_str());
+    return true;
+  };
+  if (!check_table("after open")) return false;
   int64_t tell0 = ov_pcm_tell(&vf);
   if (tell0 != 0) return r.fail("ov_pcm_tell right after open = %lld [%s]", (long long)tell0, desc.c_str());
   // read loop from the start: link 0,1,...,k-1 in order, each identical to its standalone decode
@@ -56,6 +61,7 @@ bool prop_run(Tape &t, Report &r) {
     if (n < 0) return r.fail("ov_read_float returned %ld at position %lld on an intact file [%s]", n, (long long)pos, desc.c_str());
     if (n > req) return r.fail("ov_read_float returned %ld > requested %d [%s]", n, req, desc.c_str());
     if (bs < lastbs) return r.fail("*bitstream went back from %d to %d [%s]", lastbs, bs, desc.c_str());
+    if (bs != lastbs && g_tape_gen >= 3) { if (!check_table("while reading, just inside a new link")) return false; r.label("link table re-read inside a later link"); }
     lastbs = bs;
     vorbis_info *vi = ov_info(&vf, -1); std::string why;
     if (!gt_compare(g, pos, pcm, n, bs, vi ? vi->channels : -1, why)) return r.fail("%s [%s]", why.c_str(), desc.c_str());
@@ -63,6 +69,7 @@ bool prop_run(Tape &t, Report &r) {
     int64_t tl = ov_pcm_tell(&vf);
     if (tl != pos) return r.fail("ov_pcm_tell=%lld after reading %lld samples from the start [%s]", (long long)tl, (long long)pos, desc.c_str());
   }
+  if (g_tape_gen >= 3 && !check_table("at end of file")) return false;
   if (pos != g.total) return r.fail("read loop delivered %lld samples, links sum to %lld [%s]", (long long)pos, (long long)g.total, desc.c_str());
   if (k >= 2) r.nontriv(fnv1a(desc.data(), desc.size()));
   if (r.want_sample()) r.sample(desc);
